@@ -399,6 +399,9 @@ def run(ctx):
     esc = ctx.escape('engine', kills=common.engine_kills(ctx))
     mod = prog.module('message')
     nonce_lengths(ctx, 'W1')
+    # "unknown non-critical payloads are skipped, unknown critical ones are rejected as such" holds for every position in the chain only
+    # if the code treats the type octet as what it is there - a plain integer for every payload but the first (shared with C06 T2)
+    common.identity_with_raw_int(ctx, 'W4', [q for q, f in prog.functions.items() if f.module.name == 'message'])
 
     # ---------------------------------------------------------------- W1 fixed parts
     for title, cname, dfn, di, efn, ei, fields in STRUCTS:
